@@ -44,6 +44,8 @@ import (
 
 const c05Interval = 10 * time.Minute // DefaultRenewCheckInterval, asserted below
 
+var c05Bounded bool // the worlds created next get a cache capacity equal to their number of names
+
 type c05ID struct{ name, ver int }
 
 func (i c05ID) String() string { return fmt.Sprintf("%d_%d", i.name, i.ver) }
@@ -276,13 +278,18 @@ func c05NewWorld(t *testing.T, o *vOut, ca *vCA, life time.Duration, nAll int) *
 			co.RenewCheckInterval = 100 * 365 * 24 * time.Hour
 			co.OCSPCheckInterval = 100 * 365 * 24 * time.Hour
 			c.OCSP = OCSPConfig{} // stapling on: a stored staple is honoured; the test CA names no responder
+			// a cache bounded at exactly the number of names: renewals and adoptions replace an entry
+			// and must never cost another name its certificate
+			if c05Bounded {
+				co.Capacity = nAll
+			}
 		})
 		w.cache[i], w.cfg[i] = cache, cfg
 	}
 	synctest.Wait() // the maintenance goroutines have created their (harmless) tickers
 	for i := 0; i < 2; i++ {
 		get := w.cache[i].options.GetConfigForCert
-		w.cache[i].SetOptions(CacheOptions{GetConfigForCert: get, Logger: w.cache[i].logger})
+		w.cache[i].SetOptions(CacheOptions{GetConfigForCert: get, Logger: w.cache[i].logger, Capacity: w.cache[i].options.Capacity})
 	}
 	if w.cache[0].options.RenewCheckInterval != c05Interval {
 		t.Fatalf("default renew check interval is %v", w.cache[0].options.RenewCheckInterval)
@@ -1054,7 +1061,9 @@ func (g *c05Gen) next() string {
 func c05Scenario(t *testing.T, o *vOut, ca *vCA, seed int64, script []string, life time.Duration, nMan, nUnm, steps int) {
 	synctest.Test(t, func(t *testing.T) {
 		rng := mrand.New(mrand.NewSource(seed))
+		c05Bounded = nUnm == 0 && seed%3 == 0 && script == nil
 		w := c05NewWorld(t, o, ca, life, nMan+nUnm)
+		c05Bounded = false
 		g := &c05Gen{rng: rng, w: w, nMan: nMan}
 		if script != nil {
 			for _, ev := range script {
